@@ -251,3 +251,16 @@ Theorem c11_shutdown_eventually_completes : forall react,
   exists j, i <= j /\ g_ist (s_g (f_st _ _ _ r j)) = IExited.
 Proof. exact (fun react H => shutdown_eventually_completes ABS NOLIM react eq_refl H). Qed.
 Print Assumptions c11_shutdown_eventually_completes.
+
+(* a queued Message is eventually received: on every weakly fair execution the Message at the head of the internal
+   thread's queue is eventually taken from it (unless the thread finishes first) -- whatever the other threads do
+   meanwhile; with c11_fifo_no_overtaking this holds, in order, for every queued Message *)
+Theorem c11_queued_message_eventually_received : forall react,
+  (forall x, Forall (fun cm => fst cm = CO) (fst (react x))) ->
+  forall m e (r : frun ABS NOLIM react),
+  reachable_if false ABS NOLIM react any_label m e (f_st _ _ _ r 0) -> fair ABS NOLIM react r ->
+  forall i msg0 rest, g_ist (s_g (f_st _ _ _ r i)) = ILive -> c_q (g_ci (s_g (f_st _ _ _ r i))) = msg0 :: rest ->
+  exists j, i <= j /\ (g_ist (s_g (f_st _ _ _ r j)) = IExited \/
+                       c_rcvd (g_ci (s_g (f_st _ _ _ r j))) = c_rcvd (g_ci (s_g (f_st _ _ _ r i))) ++ [msg0]).
+Proof. exact (fun react H => queued_message_eventually_received ABS NOLIM react eq_refl H). Qed.
+Print Assumptions c11_queued_message_eventually_received.
